@@ -721,10 +721,10 @@ package sod
 //@ requires [C09 lock-free] SL == 0 && HS == 0 && HM == 0
 //@ ghost s *Schema := s
 //@ ensures [C01 C12 exist.iff] imp(err == nil && s.coherent, ok == has(s.ObjectIndex.uuids, o.uuid))
-//@ ensures [C01 exist.schema] imp(err == nil, s != nil && has(db.schemas, stypeOf(dyntype(o))) && db.schemas[stypeOf(dyntype(o))] == s)
-//@ ensures [C01 exist.wf] wfDB(db)
+//@ ensures [C01 C12 exist.schema] imp(err == nil, s != nil && has(db.schemas, stypeOf(dyntype(o))) && db.schemas[stypeOf(dyntype(o))] == s)
+//@ ensures [C01 C12 exist.wf] wfDB(db)
 //@ ensures [C17 exist.readonly] FSk == old(FSk) && FSc == old(FSc)
-//@ ensures [C01 exist.others] db.schemas == old(db.schemas) && forallk(t, string, imp(t != stypeOf(dyntype(o)), has(db.schemas, t) == old(has(db.schemas, t)) && db.schemas[t] == old(db.schemas[t]))) && imp(old(has(db.schemas, stypeOf(dyntype(o)))), has(db.schemas, stypeOf(dyntype(o))) && db.schemas[stypeOf(dyntype(o))] == old(db.schemas[stypeOf(dyntype(o))]))
+//@ ensures [C01 C12 exist.others] db.schemas == old(db.schemas) && forallk(t, string, imp(t != stypeOf(dyntype(o)), has(db.schemas, t) == old(has(db.schemas, t)) && db.schemas[t] == old(db.schemas[t]))) && imp(old(has(db.schemas, stypeOf(dyntype(o)))), has(db.schemas, stypeOf(dyntype(o))) && db.schemas[stypeOf(dyntype(o))] == old(db.schemas[stypeOf(dyntype(o))]))
 //@ modifies MapDom[string,*Schema]@db.schemas, MapVal[string,*Schema]@db.schemas, MapCard[string,*Schema]@db.schemas, Async.routineStarted
 //@ allocates Schema.db, Schema.object, Schema.transformers, Schema.Fields, Schema.Extension, Schema.Compress, Schema.Cache, Schema.AsyncWrites, Schema.ObjectIndex, Schema.coherent, Async.routineStarted, Async.Enable, Async.Threshold, Async.Timeout, objIndex.i, objIndex.uuids, objIndex.Fields, objIndex.ObjectIds, objIndex.otype, objIndex.ver, MapDom[string,uint64], MapVal[string,uint64], MapCard[string,uint64], MapDom[uint64,string], MapVal[uint64,string], MapCard[uint64,string], MapDom[string,*fieldIndex], MapVal[string,*fieldIndex], MapCard[string,*fieldIndex], fieldIndex.Name, fieldIndex.Cast, fieldIndex.Constraints, fieldIndex.Index, fieldIndex.objectIds, fieldIndex.nameSplit, fieldIndex.pos, MapDom[uint64,*indexedField], MapVal[uint64,*indexedField], MapCard[uint64,*indexedField], Elem[*indexedField], indexedField.Value, indexedField.ObjectId, Elem[string]
 //@ allocates Elem[interface{}]
@@ -738,18 +738,18 @@ package sod
 //@ let u string := in.uuid
 //@ let T string := stypeOf(dyntype(in))
 //@ ghost s *Schema := s
-//@ ensures [C01 get.schema] imp(err == nil, s != nil && has(db.schemas, T) && db.schemas[T] == s)
-//@ ensures [C01 get.stored] imp(old(collsOK(db)) && has(db.schemas, T) && db.schemas[T].coherent && has(db.schemas[T].ObjectIndex.uuids, u), (err == nil && out != nil && out.uuid == u && out.content == value(db, db.schemas[T], u)) || isStorage(err))
-//@ ensures [C01 get.absent] imp(old(collsOK(db)) && has(db.schemas, T) && db.schemas[T].coherent && !has(db.schemas[T].ObjectIndex.uuids, u), err != nil && !isStorage(err))
+//@ ensures [C01 C12 get.schema] imp(err == nil, s != nil && has(db.schemas, T) && db.schemas[T] == s)
+//@ ensures [C01 C12 get.stored] imp(old(collsOK(db)) && has(db.schemas, T) && db.schemas[T].coherent && has(db.schemas[T].ObjectIndex.uuids, u), (err == nil && out != nil && out.uuid == u && out.content == value(db, db.schemas[T], u)) || isStorage(err))
+//@ ensures [C01 C12 get.absent] imp(old(collsOK(db)) && has(db.schemas, T) && db.schemas[T].coherent && !has(db.schemas[T].ObjectIndex.uuids, u), err != nil && !isStorage(err))
 //@ ensures [C14 get.isolated] imp(err == nil && cacheOn(db.schemas[T]) && old(has(db.schemas, T) && cached(db, db.schemas[T], u)), fresh(out) && out != in)
 //@ ensures [C13 get.not-eoi] err != ErrEOI
 //@ ensures [C02 get.type] imp(err == nil, out != nil && dyntype(out) == dyntype(in))
-//@ ensures [C01 get.uuid] imp(err == nil, out.uuid == u)
+//@ ensures [C01 C12 get.uuid] imp(err == nil, out.uuid == u)
 //@ ensures [C14 get.clones-fresh] forallk(t, string, forallk(w, string, imp(has(db.cache.m, t) && has(db.cache.m[t].m, w), fresh(db.cache.m[t].m[w]) || (old(has(db.cache.m, t) && has(db.cache.m[t].m, w)) && db.cache.m[t].m[w] == old(db.cache.m[t].m[w])))))
-//@ ensures [C01 get.out] imp(old(has(db.schemas, T)), err != ErrEOI && out != nil && out.uuid == u && dyntype(out) == dyntype(in))
-//@ ensures [C01 get.wf] wfDBbase(db) && imp(old(collsOK(db)), collsOK(db))
-//@ ensures [C01 get.readonly] FSk == old(FSk) && FSc == old(FSc) && forallk(t, string, has(db.asyncw.m, t) == old(has(db.asyncw.m, t)) && db.asyncw.m[t] == old(db.asyncw.m[t]) && imp(has(db.asyncw.m, t), forallk(w, string, has(db.asyncw.m[t].m, w) == old(has(db.asyncw.m[t].m, w)) && db.asyncw.m[t].m[w] == old(db.asyncw.m[t].m[w]))))
-//@ ensures [C01 get.others] db.schemas == old(db.schemas) && forallk(t, string, imp(t != T, has(db.schemas, t) == old(has(db.schemas, t)) && db.schemas[t] == old(db.schemas[t]))) && imp(old(has(db.schemas, T)), has(db.schemas, T) && db.schemas[T] == old(db.schemas[T]))
+//@ ensures [C01 C12 get.out] imp(old(has(db.schemas, T)), err != ErrEOI && out != nil && out.uuid == u && dyntype(out) == dyntype(in))
+//@ ensures [C01 C12 get.wf] wfDBbase(db) && imp(old(collsOK(db)), collsOK(db))
+//@ ensures [C01 C12 get.readonly] FSk == old(FSk) && FSc == old(FSc) && forallk(t, string, has(db.asyncw.m, t) == old(has(db.asyncw.m, t)) && db.asyncw.m[t] == old(db.asyncw.m[t]) && imp(has(db.asyncw.m, t), forallk(w, string, has(db.asyncw.m[t].m, w) == old(has(db.asyncw.m[t].m, w)) && db.asyncw.m[t].m[w] == old(db.asyncw.m[t].m[w]))))
+//@ ensures [C01 C12 get.others] db.schemas == old(db.schemas) && forallk(t, string, imp(t != T, has(db.schemas, t) == old(has(db.schemas, t)) && db.schemas[t] == old(db.schemas[t]))) && imp(old(has(db.schemas, T)), has(db.schemas, T) && db.schemas[T] == old(db.schemas[T]))
 //@ modifies MapDom[string,*Schema]@db.schemas, MapVal[string,*Schema]@db.schemas, MapCard[string,*Schema]@db.schemas, Async.routineStarted, Object.content@in, MapDom[string,*objectMap]@db.cache.m, MapVal[string,*objectMap]@db.cache.m, MapCard[string,*objectMap]@db.cache.m, MapDom[string,Object], MapVal[string,Object], MapCard[string,Object]
 //@ allocates Object.content, Object.uuid, objectMap.m, objectMap.RWMutex, Schema.db, Schema.object, Schema.transformers, Schema.Fields, Schema.Extension, Schema.Compress, Schema.Cache, Schema.AsyncWrites, Schema.ObjectIndex, Schema.coherent, Async.routineStarted, Async.Enable, Async.Threshold, Async.Timeout, objIndex.i, objIndex.uuids, objIndex.Fields, objIndex.ObjectIds, objIndex.otype, objIndex.ver, MapDom[string,uint64], MapVal[string,uint64], MapCard[string,uint64], MapDom[uint64,string], MapVal[uint64,string], MapCard[uint64,string], MapDom[string,*fieldIndex], MapVal[string,*fieldIndex], MapCard[string,*fieldIndex], fieldIndex.Name, fieldIndex.Cast, fieldIndex.Constraints, fieldIndex.Index, fieldIndex.objectIds, fieldIndex.nameSplit, fieldIndex.pos, MapDom[uint64,*indexedField], MapVal[uint64,*indexedField], MapCard[uint64,*indexedField], Elem[*indexedField], indexedField.Value, indexedField.ObjectId, Elem[string]
 //@ allocates Elem[interface{}]
@@ -892,10 +892,10 @@ package sod
 //@ let u0 string := o.uuid
 //@ let idx *objIndex := s.ObjectIndex
 //@ ghost u string := o.uuid
-//@ ensures [C01 iou.uuid-is] u == o.uuid
-//@ ensures [C01 iou.keeps-uuid] imp(err == nil, u != "" && imp(u0 != "", u == u0) && imp(u0 == "", !old(has(s.ObjectIndex.uuids, u))))
-//@ ensures [C01 iou.stored] imp(err == nil, has(idx.uuids, o.uuid) && value(db, s, o.uuid) == o.content)
-//@ ensures [C01 iou.others] imp(err == nil, forallk(w, string, imp(w != o.uuid, has(idx.uuids, w) == old(has(idx.uuids, w)) && value(db, s, w) == old(value(db, s, w)))))
+//@ ensures [C01 C12 iou.uuid-is] u == o.uuid
+//@ ensures [C01 C12 iou.keeps-uuid] imp(err == nil, u != "" && imp(u0 != "", u == u0) && imp(u0 == "", !old(has(s.ObjectIndex.uuids, u))))
+//@ ensures [C01 C12 iou.stored] imp(err == nil, has(idx.uuids, o.uuid) && value(db, s, o.uuid) == o.content)
+//@ ensures [C01 C12 iou.others] imp(err == nil, forallk(w, string, imp(w != o.uuid, has(idx.uuids, w) == old(has(idx.uuids, w)) && value(db, s, w) == old(value(db, s, w)))))
 //@ ensures [C10 iou.async-visible] imp(err == nil && asyncOn(s), pend(db, s, o.uuid) && cached(db, s, o.uuid))
 //@ ensures [C04 iou.committed] imp(err == nil && commit && !asyncOn(s), committed(db, s))
 //@ ensures [C06 iou.reject-no-trace] imp(err != nil && !isStorage(err), FSk == old(FSk) && FSc == old(FSc) && idx.ver == old(idx.ver) && forallk(w, string, has(idx.uuids, w) == old(has(idx.uuids, w)) && cached(db, s, w) == old(cached(db, s, w)) && pend(db, s, w) == old(pend(db, s, w)) && imp(cached(db, s, w), db.cache.m[ckey(s)].m[w].content == old(db.cache.m[ckey(s)].m[w].content))))
@@ -905,12 +905,12 @@ package sod
 //@ callhint (*DB).commit [C01 others-entry] forallk(w, string, imp(w != o.uuid && has(idx.uuids, w), idx.uuids[w] == old(idx.uuids[w]) && forallk(f, string, imp(has(idx.Fields, f), idx.Fields[f].objectIds[idx.uuids[w]].Value == old(idx.Fields[f].objectIds[idx.uuids[w]].Value)))))
 //@ callhint (*DB).commit [C01 own-entry] has(idx.uuids, o.uuid) && value(db, s, o.uuid) == o.content && forallk(f, string, imp(has(idx.Fields, f), idx.Fields[f].objectIds[idx.uuids[o.uuid]].Value == norm(proj(o.content, f))))
 //@ callhint (*DB).commit [C01 coherent-before-commit] collsOK(db)
-//@ ensures [C01 iou.wf-base] wfDBbase(db)
+//@ ensures [C01 C12 iou.wf-base] wfDBbase(db)
 //@ ensures [C20 iou.elems] elemsFramed(idx)
-//@ ensures [C01 iou.wf] imp(!isStorage(err), collsOK(db))
+//@ ensures [C01 C12 iou.wf] imp(!isStorage(err), collsOK(db))
 //@ ensures [C14 iou.clones-fresh] forallk(t, string, forallk(w, string, imp(has(db.cache.m, t) && has(db.cache.m[t].m, w), fresh(db.cache.m[t].m[w]) || (old(has(db.cache.m, t) && has(db.cache.m[t].m, w)) && db.cache.m[t].m[w] == old(db.cache.m[t].m[w]))) && imp(has(db.asyncw.m, t) && has(db.asyncw.m[t].m, w), fresh(db.asyncw.m[t].m[w]) || (old(has(db.asyncw.m, t) && has(db.asyncw.m[t].m, w)) && db.asyncw.m[t].m[w] == old(db.asyncw.m[t].m[w])))))
 //@ ensures [C15 iou.stage] o.stage == 3 && o.content == old(o.content)
-//@ ensures [C01 iou.table] db.schemas == old(db.schemas) && has(db.schemas, stypeOf(dyntype(o))) && db.schemas[stypeOf(dyntype(o))] == s && s.ObjectIndex == idx && s.coherent && forallk(t, string, has(db.schemas, t) == old(has(db.schemas, t))) && idx.i <= old(idx.i) + 1 && idx.i >= old(idx.i)
+//@ ensures [C01 C12 iou.table] db.schemas == old(db.schemas) && has(db.schemas, stypeOf(dyntype(o))) && db.schemas[stypeOf(dyntype(o))] == s && s.ObjectIndex == idx && s.coherent && forallk(t, string, has(db.schemas, t) == old(has(db.schemas, t))) && idx.i <= old(idx.i) + 1 && idx.i >= old(idx.i)
 //@ modifies Object.uuid@o, Ghost.FSk, Ghost.FSc, Async.routineStarted, MapDom[string,*Schema]@db.schemas, MapVal[string,*Schema]@db.schemas, MapCard[string,*Schema]@db.schemas, MapDom[string,*objectMap], MapVal[string,*objectMap], MapCard[string,*objectMap], MapDom[string,Object], MapVal[string,Object], MapCard[string,Object], objIndex.i@s.ObjectIndex, objIndex.ver@s.ObjectIndex, MapDom[string,uint64]@s.ObjectIndex.uuids, MapVal[string,uint64]@s.ObjectIndex.uuids, MapCard[string,uint64]@s.ObjectIndex.uuids, MapDom[uint64,string]@s.ObjectIndex.ObjectIds, MapVal[uint64,string]@s.ObjectIndex.ObjectIds, MapCard[uint64,string]@s.ObjectIndex.ObjectIds, fieldIndex.Index, fieldIndex.pos, MapDom[uint64,*indexedField], MapVal[uint64,*indexedField], MapCard[uint64,*indexedField], Elem[*indexedField]
 //@ allocates Elem[uint8], Elem[interface{}], Object.content, Object.uuid, objectMap.m, objectMap.RWMutex, indexedField.Value, indexedField.ObjectId, Schema.db, Schema.object, Schema.transformers, Schema.Fields, Schema.Extension, Schema.Compress, Schema.Cache, Schema.AsyncWrites, Schema.ObjectIndex, Schema.coherent, Async.routineStarted, Async.Enable, Async.Threshold, Async.Timeout, objIndex.i, objIndex.uuids, objIndex.Fields, objIndex.ObjectIds, objIndex.otype, objIndex.ver, MapDom[string,uint64], MapVal[string,uint64], MapCard[string,uint64], MapDom[uint64,string], MapVal[uint64,string], MapCard[uint64,string], MapDom[string,*fieldIndex], MapVal[string,*fieldIndex], MapCard[string,*fieldIndex], fieldIndex.Name, fieldIndex.Cast, fieldIndex.Constraints, fieldIndex.Index, fieldIndex.objectIds, fieldIndex.nameSplit, fieldIndex.pos, MapDom[uint64,*indexedField], MapVal[uint64,*indexedField], MapCard[uint64,*indexedField], Elem[*indexedField], Elem[string]
 //@ allocates Constraints.Index, Constraints.Lower, Constraints.Unique, Constraints.Upper
@@ -923,17 +923,17 @@ package sod
 //@ let T string := stypeOf(dyntype(o))
 //@ let u string := o.uuid
 //@ assume [single-collection] forallk(t, string, imp(has(db.schemas, t), t == T))
-//@ ensures [C01 del.schema] imp(err == nil, has(db.schemas, T))
-//@ ensures [C01 del.ids] imp(old(has(db.schemas, T)), forallk(id, uint64, imp(has(db.schemas[T].ObjectIndex.ObjectIds, id), old(has(db.schemas[T].ObjectIndex.ObjectIds, id)) && db.schemas[T].ObjectIndex.ObjectIds[id] == old(db.schemas[T].ObjectIndex.ObjectIds[id]))) && forallk(w, string, imp(has(db.schemas[T].ObjectIndex.uuids, w), db.schemas[T].ObjectIndex.uuids[w] == old(db.schemas[T].ObjectIndex.uuids[w]))))
+//@ ensures [C01 C12 del.schema] imp(err == nil, has(db.schemas, T))
+//@ ensures [C01 C12 del.ids] imp(old(has(db.schemas, T)), forallk(id, uint64, imp(has(db.schemas[T].ObjectIndex.ObjectIds, id), old(has(db.schemas[T].ObjectIndex.ObjectIds, id)) && db.schemas[T].ObjectIndex.ObjectIds[id] == old(db.schemas[T].ObjectIndex.ObjectIds[id]))) && forallk(w, string, imp(has(db.schemas[T].ObjectIndex.uuids, w), db.schemas[T].ObjectIndex.uuids[w] == old(db.schemas[T].ObjectIndex.uuids[w]))))
 //@ ensures [C05 del.error-kind] imp(err != nil && old(has(db.schemas, T)), isStorage(err))
 //@ ensures [C01 C10 C12 del.gone] imp(has(db.schemas, T) && (err == nil || isStorage(err)) && old(has(db.schemas, T)) && db.schemas[T].coherent, !has(db.schemas[T].ObjectIndex.uuids, u) && !cached(db, db.schemas[T], u) && !pend(db, db.schemas[T], u))
-//@ ensures [C01 C10 del.file-gone] imp(err == nil && old(has(db.schemas, T)) && db.schemas[T].coherent, FSk[opath(db, db.schemas[T], u)] == 0)
-//@ ensures [C01 del.others] imp(old(has(db.schemas, T)), forallk(w, string, imp(w != u, has(db.schemas[T].ObjectIndex.uuids, w) == old(has(db.schemas[T].ObjectIndex.uuids, w)) && value(db, db.schemas[T], w) == old(value(db, db.schemas[T], w)))))
+//@ ensures [C01 C10 C12 del.file-gone] imp(err == nil && old(has(db.schemas, T)) && db.schemas[T].coherent, FSk[opath(db, db.schemas[T], u)] == 0)
+//@ ensures [C01 C12 del.others] imp(old(has(db.schemas, T)), forallk(w, string, imp(w != u, has(db.schemas[T].ObjectIndex.uuids, w) == old(has(db.schemas[T].ObjectIndex.uuids, w)) && value(db, db.schemas[T], w) == old(value(db, db.schemas[T], w)))))
 //@ ensures [C05 del.storage-detectable] imp(isStorage(err) && old(has(db.schemas, T)) && db.schemas[T].coherent, !collK2(db, db.schemas[T]) || wfColl(db, db.schemas[T]))
-//@ ensures [C01 del.wf-base] wfDBbase(db)
+//@ ensures [C01 C12 del.wf-base] wfDBbase(db)
 //@ ensures [C20 del.elems] elemsFramedDB(db, T)
-//@ ensures [C01 del.wf] imp(!isStorage(err), collsOK(db))
-//@ ensures [C01 del.table] db.schemas == old(db.schemas) && forallk(t, string, imp(t != T, has(db.schemas, t) == old(has(db.schemas, t)) && db.schemas[t] == old(db.schemas[t]))) && imp(old(has(db.schemas, T)), has(db.schemas, T) && db.schemas[T] == old(db.schemas[T]) && db.schemas[T].ObjectIndex == old(db.schemas[T].ObjectIndex) && db.schemas[T].coherent == old(db.schemas[T].coherent))
+//@ ensures [C01 C12 del.wf] imp(!isStorage(err), collsOK(db))
+//@ ensures [C01 C12 del.table] db.schemas == old(db.schemas) && forallk(t, string, imp(t != T, has(db.schemas, t) == old(has(db.schemas, t)) && db.schemas[t] == old(db.schemas[t]))) && imp(old(has(db.schemas, T)), has(db.schemas, T) && db.schemas[T] == old(db.schemas[T]) && db.schemas[T].ObjectIndex == old(db.schemas[T].ObjectIndex) && db.schemas[T].coherent == old(db.schemas[T].coherent))
 //@ modifies Ghost.FSk, Async.routineStarted, MapDom[string,*Schema]@db.schemas, MapVal[string,*Schema]@db.schemas, MapCard[string,*Schema]@db.schemas, MapDom[string,Object], MapCard[string,Object], objIndex.ver, MapDom[string,uint64], MapVal[string,uint64], MapCard[string,uint64], MapDom[uint64,string], MapVal[uint64,string], MapCard[uint64,string], fieldIndex.Index, fieldIndex.pos, MapDom[uint64,*indexedField], MapVal[uint64,*indexedField], MapCard[uint64,*indexedField], Elem[*indexedField]
 //@ allocates Schema.db, Schema.object, Schema.transformers, Schema.Fields, Schema.Extension, Schema.Compress, Schema.Cache, Schema.AsyncWrites, Schema.ObjectIndex, Schema.coherent, Async.routineStarted, Async.Enable, Async.Threshold, Async.Timeout, objIndex.i, objIndex.uuids, objIndex.Fields, objIndex.ObjectIds, objIndex.otype, objIndex.ver, MapDom[string,uint64], MapVal[string,uint64], MapCard[string,uint64], MapDom[uint64,string], MapVal[uint64,string], MapCard[uint64,string], MapDom[string,*fieldIndex], MapVal[string,*fieldIndex], MapCard[string,*fieldIndex], fieldIndex.Name, fieldIndex.Cast, fieldIndex.Constraints, fieldIndex.Index, fieldIndex.objectIds, fieldIndex.nameSplit, fieldIndex.pos, MapDom[uint64,*indexedField], MapVal[uint64,*indexedField], MapCard[uint64,*indexedField], Elem[*indexedField], indexedField.Value, indexedField.ObjectId, Elem[string]
 //@ allocates Elem[interface{}]
@@ -989,10 +989,10 @@ package sod
 //@ let u string := in.uuid
 //@ let T string := stypeOf(dyntype(in))
 //@ ensures [C08 one-section] ACQ_H == old(ACQ_H) + 1
-//@ ensures [C01 Get.stored] imp(has(db.schemas, T) && db.schemas[T].coherent && has(db.schemas[T].ObjectIndex.uuids, u), (err == nil && out != nil && out.uuid == u && out.content == value(db, db.schemas[T], u)) || isStorage(err))
-//@ ensures [C01 Get.absent] imp(has(db.schemas, T) && db.schemas[T].coherent && !has(db.schemas[T].ObjectIndex.uuids, u), err != nil && !isStorage(err))
-//@ ensures [C01 Get.wf] wfDB(db)
-//@ ensures [C01 Get.readonly] FSk == old(FSk) && FSc == old(FSc)
+//@ ensures [C01 C12 Get.stored] imp(has(db.schemas, T) && db.schemas[T].coherent && has(db.schemas[T].ObjectIndex.uuids, u), (err == nil && out != nil && out.uuid == u && out.content == value(db, db.schemas[T], u)) || isStorage(err))
+//@ ensures [C01 C12 Get.absent] imp(has(db.schemas, T) && db.schemas[T].coherent && !has(db.schemas[T].ObjectIndex.uuids, u), err != nil && !isStorage(err))
+//@ ensures [C01 C12 Get.wf] wfDB(db)
+//@ ensures [C01 C12 Get.readonly] FSk == old(FSk) && FSc == old(FSc)
 //@ modifies Ghost.ACQ_H, MapDom[string,*Schema]@db.schemas, MapVal[string,*Schema]@db.schemas, MapCard[string,*Schema]@db.schemas, Async.routineStarted, Object.content@in, MapDom[string,*objectMap]@db.cache.m, MapVal[string,*objectMap]@db.cache.m, MapCard[string,*objectMap]@db.cache.m, MapDom[string,Object], MapVal[string,Object], MapCard[string,Object]
 //@ allocates Async.Enable, Async.Threshold, Async.Timeout, Elem[*indexedField], Elem[string], MapCard[string,*fieldIndex], MapCard[string,uint64], MapCard[uint64,*indexedField], MapCard[uint64,string], MapDom[string,*fieldIndex], MapDom[string,uint64], MapDom[uint64,*indexedField], MapDom[uint64,string], MapVal[string,*fieldIndex], MapVal[string,uint64], MapVal[uint64,*indexedField], MapVal[uint64,string], Object.uuid, Schema.AsyncWrites, Schema.Cache, Schema.Compress, Schema.Extension, Schema.Fields, Schema.ObjectIndex, Schema.coherent, Schema.db, Schema.object, Schema.transformers, fieldIndex.Cast, fieldIndex.Constraints.Index, fieldIndex.Constraints.Lower, fieldIndex.Constraints.Unique, fieldIndex.Constraints.Upper, fieldIndex.Index, fieldIndex.Name, fieldIndex.nameSplit, fieldIndex.objectIds, fieldIndex.pos, indexedField.ObjectId, indexedField.Value, objIndex.Fields, objIndex.ObjectIds, objIndex.i, objIndex.otype, objIndex.uuids, objIndex.ver, objectMap.RWMutex, objectMap.m
 //@ allocates Elem[interface{}]
@@ -1003,9 +1003,9 @@ package sod
 //@ requires [C09 lock-free] lockFree()
 //@ let T string := stypeOf(dyntype(in))
 //@ ensures [C08 one-section] ACQ_H == old(ACQ_H) + 1
-//@ ensures [C01 GetByUUID.stored] imp(has(db.schemas, T) && db.schemas[T].coherent && has(db.schemas[T].ObjectIndex.uuids, uuid), (err == nil && out != nil && out.uuid == uuid && out.content == value(db, db.schemas[T], uuid)) || isStorage(err))
-//@ ensures [C01 GetByUUID.absent] imp(has(db.schemas, T) && db.schemas[T].coherent && !has(db.schemas[T].ObjectIndex.uuids, uuid), err != nil && !isStorage(err))
-//@ ensures [C01 GetByUUID.wf] wfDB(db)
+//@ ensures [C01 C12 GetByUUID.stored] imp(has(db.schemas, T) && db.schemas[T].coherent && has(db.schemas[T].ObjectIndex.uuids, uuid), (err == nil && out != nil && out.uuid == uuid && out.content == value(db, db.schemas[T], uuid)) || isStorage(err))
+//@ ensures [C01 C12 GetByUUID.absent] imp(has(db.schemas, T) && db.schemas[T].coherent && !has(db.schemas[T].ObjectIndex.uuids, uuid), err != nil && !isStorage(err))
+//@ ensures [C01 C12 GetByUUID.wf] wfDB(db)
 //@ modifies Ghost.ACQ_H, Object.uuid@in, MapDom[string,*Schema]@db.schemas, MapVal[string,*Schema]@db.schemas, MapCard[string,*Schema]@db.schemas, Async.routineStarted, Object.content@in, MapDom[string,*objectMap]@db.cache.m, MapVal[string,*objectMap]@db.cache.m, MapCard[string,*objectMap]@db.cache.m, MapDom[string,Object], MapVal[string,Object], MapCard[string,Object]
 //@ allocates Async.Enable, Async.Threshold, Async.Timeout, Elem[*indexedField], Elem[string], MapCard[string,*fieldIndex], MapCard[string,uint64], MapCard[uint64,*indexedField], MapCard[uint64,string], MapDom[string,*fieldIndex], MapDom[string,uint64], MapDom[uint64,*indexedField], MapDom[uint64,string], MapVal[string,*fieldIndex], MapVal[string,uint64], MapVal[uint64,*indexedField], MapVal[uint64,string], Schema.AsyncWrites, Schema.Cache, Schema.Compress, Schema.Extension, Schema.Fields, Schema.ObjectIndex, Schema.coherent, Schema.db, Schema.object, Schema.transformers, fieldIndex.Cast, fieldIndex.Constraints.Index, fieldIndex.Constraints.Lower, fieldIndex.Constraints.Unique, fieldIndex.Constraints.Upper, fieldIndex.Index, fieldIndex.Name, fieldIndex.nameSplit, fieldIndex.objectIds, fieldIndex.pos, indexedField.ObjectId, indexedField.Value, objIndex.Fields, objIndex.ObjectIds, objIndex.i, objIndex.otype, objIndex.uuids, objIndex.ver, objectMap.RWMutex, objectMap.m
 //@ allocates Elem[interface{}]
@@ -1016,13 +1016,13 @@ package sod
 //@ requires [C08 locked] H >= 1
 //@ requires [C09 lock-free] SL == 0 && HS == 0 && HM == 0
 //@ let T string := stypeOf(dyntype(in))
-//@ ensures [C01 getByUUID.stored] imp(old(collsOK(db)) && has(db.schemas, T) && db.schemas[T].coherent && has(db.schemas[T].ObjectIndex.uuids, uuid), (err == nil && out != nil && out.uuid == uuid && out.content == value(db, db.schemas[T], uuid)) || isStorage(err))
-//@ ensures [C01 getByUUID.absent] imp(old(collsOK(db)) && has(db.schemas, T) && db.schemas[T].coherent && !has(db.schemas[T].ObjectIndex.uuids, uuid), err != nil && !isStorage(err))
+//@ ensures [C01 C12 getByUUID.stored] imp(old(collsOK(db)) && has(db.schemas, T) && db.schemas[T].coherent && has(db.schemas[T].ObjectIndex.uuids, uuid), (err == nil && out != nil && out.uuid == uuid && out.content == value(db, db.schemas[T], uuid)) || isStorage(err))
+//@ ensures [C01 C12 getByUUID.absent] imp(old(collsOK(db)) && has(db.schemas, T) && db.schemas[T].coherent && !has(db.schemas[T].ObjectIndex.uuids, uuid), err != nil && !isStorage(err))
 //@ ensures [C14 getByUUID.clones-fresh] forallk(t, string, forallk(w, string, imp(has(db.cache.m, t) && has(db.cache.m[t].m, w), fresh(db.cache.m[t].m[w]) || (old(has(db.cache.m, t) && has(db.cache.m[t].m, w)) && db.cache.m[t].m[w] == old(db.cache.m[t].m[w])))))
 //@ ensures [C02 getByUUID.type] imp(err == nil, out != nil && dyntype(out) == dyntype(in) && out.uuid == uuid)
-//@ ensures [C01 getByUUID.wf] wfDBbase(db) && imp(old(collsOK(db)), collsOK(db))
-//@ ensures [C01 getByUUID.readonly] FSk == old(FSk) && FSc == old(FSc) && asyncwSame(db)
-//@ ensures [C01 getByUUID.others] db.schemas == old(db.schemas) && forallk(t, string, imp(t != T, has(db.schemas, t) == old(has(db.schemas, t)) && db.schemas[t] == old(db.schemas[t]))) && imp(old(has(db.schemas, T)), has(db.schemas, T) && db.schemas[T] == old(db.schemas[T]))
+//@ ensures [C01 C12 getByUUID.wf] wfDBbase(db) && imp(old(collsOK(db)), collsOK(db))
+//@ ensures [C01 C12 getByUUID.readonly] FSk == old(FSk) && FSc == old(FSc) && asyncwSame(db)
+//@ ensures [C01 C12 getByUUID.others] db.schemas == old(db.schemas) && forallk(t, string, imp(t != T, has(db.schemas, t) == old(has(db.schemas, t)) && db.schemas[t] == old(db.schemas[t]))) && imp(old(has(db.schemas, T)), has(db.schemas, T) && db.schemas[T] == old(db.schemas[T]))
 //@ modifies Object.uuid@in, MapDom[string,*Schema]@db.schemas, MapVal[string,*Schema]@db.schemas, MapCard[string,*Schema]@db.schemas, Async.routineStarted, Object.content@in, MapDom[string,*objectMap]@db.cache.m, MapVal[string,*objectMap]@db.cache.m, MapCard[string,*objectMap]@db.cache.m, MapDom[string,Object], MapVal[string,Object], MapCard[string,Object]
 //@ allocates Async.Enable, Async.Threshold, Async.Timeout, Elem[*indexedField], Elem[string], MapCard[string,*fieldIndex], MapCard[string,uint64], MapCard[uint64,*indexedField], MapCard[uint64,string], MapDom[string,*fieldIndex], MapDom[string,uint64], MapDom[uint64,*indexedField], MapDom[uint64,string], MapVal[string,*fieldIndex], MapVal[string,uint64], MapVal[uint64,*indexedField], MapVal[uint64,string], Schema.AsyncWrites, Schema.Cache, Schema.Compress, Schema.Extension, Schema.Fields, Schema.ObjectIndex, Schema.coherent, Schema.db, Schema.object, Schema.transformers, fieldIndex.Cast, fieldIndex.Constraints.Index, fieldIndex.Constraints.Lower, fieldIndex.Constraints.Unique, fieldIndex.Constraints.Upper, fieldIndex.Index, fieldIndex.Name, fieldIndex.nameSplit, fieldIndex.objectIds, fieldIndex.pos, indexedField.ObjectId, indexedField.Value, objIndex.Fields, objIndex.ObjectIds, objIndex.i, objIndex.otype, objIndex.uuids, objIndex.ver, objectMap.RWMutex, objectMap.m
 //@ allocates Elem[interface{}]
@@ -1033,8 +1033,8 @@ package sod
 //@ requires [C09 lock-free] lockFree()
 //@ ensures [C08 one-section] ACQ_H == old(ACQ_H) + 1
 //@ ensures [C01 C12 Exist.iff] imp(err == nil && db.schemas[stypeOf(dyntype(o))].coherent, ok == has(db.schemas[stypeOf(dyntype(o))].ObjectIndex.uuids, o.uuid))
-//@ ensures [C01 Exist.wf] wfDB(db)
-//@ ensures [C01 Exist.readonly] FSk == old(FSk) && FSc == old(FSc)
+//@ ensures [C01 C12 Exist.wf] wfDB(db)
+//@ ensures [C01 C12 Exist.readonly] FSk == old(FSk) && FSc == old(FSc)
 //@ modifies Ghost.ACQ_H, MapDom[string,*Schema]@db.schemas, MapVal[string,*Schema]@db.schemas, MapCard[string,*Schema]@db.schemas, Async.routineStarted
 //@ allocates Async.Enable, Async.Threshold, Async.Timeout, Elem[*indexedField], Elem[string], MapCard[string,*fieldIndex], MapCard[string,uint64], MapCard[uint64,*indexedField], MapCard[uint64,string], MapDom[string,*fieldIndex], MapDom[string,uint64], MapDom[uint64,*indexedField], MapDom[uint64,string], MapVal[string,*fieldIndex], MapVal[string,uint64], MapVal[uint64,*indexedField], MapVal[uint64,string], Schema.AsyncWrites, Schema.Cache, Schema.Compress, Schema.Extension, Schema.Fields, Schema.ObjectIndex, Schema.coherent, Schema.db, Schema.object, Schema.transformers, fieldIndex.Cast, fieldIndex.Constraints.Index, fieldIndex.Constraints.Lower, fieldIndex.Constraints.Unique, fieldIndex.Constraints.Upper, fieldIndex.Index, fieldIndex.Name, fieldIndex.nameSplit, fieldIndex.objectIds, fieldIndex.pos, indexedField.ObjectId, indexedField.Value, objIndex.Fields, objIndex.ObjectIds, objIndex.i, objIndex.otype, objIndex.uuids, objIndex.ver
 //@ allocates Elem[interface{}]
@@ -1051,13 +1051,13 @@ package sod
 //@ ghost u string := o.uuid
 //@ ensures [C08 one-section] ACQ_H == old(ACQ_H) + 1
 //@ ensures [C20 IOU.elems] elemsFramedDB(db, stypeOf(dyntype(o)))
-//@ ensures [C01 IOU.stored] imp(err == nil, has(db.schemas, T) && has(db.schemas[T].ObjectIndex.uuids, u) && value(db, db.schemas[T], u) == o.content && u != "" && imp(u0 != "", u == u0))
+//@ ensures [C01 C12 IOU.stored] imp(err == nil, has(db.schemas, T) && has(db.schemas[T].ObjectIndex.uuids, u) && value(db, db.schemas[T], u) == o.content && u != "" && imp(u0 != "", u == u0))
 //@ ensures [C15 IOU.hooks] imp(err == nil, o.stage == 3)
-//@ ensures [C01 IOU.others] imp(err == nil && old(has(db.schemas, T)), forallk(w, string, imp(w != u, has(db.schemas[T].ObjectIndex.uuids, w) == old(has(db.schemas[T].ObjectIndex.uuids, w)) && value(db, db.schemas[T], w) == old(value(db, db.schemas[T], w)))))
+//@ ensures [C01 C12 IOU.others] imp(err == nil && old(has(db.schemas, T)), forallk(w, string, imp(w != u, has(db.schemas[T].ObjectIndex.uuids, w) == old(has(db.schemas[T].ObjectIndex.uuids, w)) && value(db, db.schemas[T], w) == old(value(db, db.schemas[T], w)))))
 //@ ensures [C04 IOU.committed] imp(err == nil && !asyncOn(db.schemas[T]), committed(db, db.schemas[T]))
 //@ ensures [C06 IOU.reject-no-trace] imp(err != nil && !isStorage(err) && old(has(db.schemas, T)), FSk == old(FSk) && FSc == old(FSc) && db.schemas[T].ObjectIndex.ver == old(db.schemas[T].ObjectIndex.ver) && forallk(w, string, has(db.schemas[T].ObjectIndex.uuids, w) == old(has(db.schemas[T].ObjectIndex.uuids, w)) && cached(db, db.schemas[T], w) == old(cached(db, db.schemas[T], w)) && pend(db, db.schemas[T], w) == old(pend(db, db.schemas[T], w))))
 //@ ensures [C17 IOU.unknown-schema-no-write] imp(err != nil && !has(db.schemas, T), FSk == old(FSk) && FSc == old(FSc))
-//@ ensures [C01 IOU.wf] imp(!isStorage(err), wfDB(db))
+//@ ensures [C01 C12 IOU.wf] imp(!isStorage(err), wfDB(db))
 //@ modifies Ghost.ACQ_H, Object.content@o, Object.stage@o, Object.uuid@o, Ghost.FSk, Ghost.FSc, Async.routineStarted, MapDom[string,*Schema]@db.schemas, MapVal[string,*Schema]@db.schemas, MapCard[string,*Schema]@db.schemas, MapDom[string,*objectMap], MapVal[string,*objectMap], MapCard[string,*objectMap], MapDom[string,Object], MapVal[string,Object], MapCard[string,Object], objIndex.i, objIndex.ver, MapDom[string,uint64], MapVal[string,uint64], MapCard[string,uint64], MapDom[uint64,string], MapVal[uint64,string], MapCard[uint64,string], fieldIndex.Index, fieldIndex.pos, MapDom[uint64,*indexedField], MapVal[uint64,*indexedField], MapCard[uint64,*indexedField], Elem[*indexedField]
 //@ allocates Async.Enable, Async.Threshold, Async.Timeout, Elem[interface{}], Elem[string], Elem[uint8], MapCard[string,*fieldIndex], MapDom[string,*fieldIndex], MapVal[string,*fieldIndex], Schema.AsyncWrites, Schema.Cache, Schema.Compress, Schema.Extension, Schema.Fields, Schema.ObjectIndex, Schema.coherent, Schema.db, Schema.object, Schema.transformers, fieldIndex.Cast, fieldIndex.Constraints.Index, fieldIndex.Constraints.Lower, fieldIndex.Constraints.Unique, fieldIndex.Constraints.Upper, fieldIndex.Name, fieldIndex.nameSplit, fieldIndex.objectIds, indexedField.ObjectId, indexedField.Value, objIndex.Fields, objIndex.ObjectIds, objIndex.otype, objIndex.uuids, objectMap.RWMutex, objectMap.m
 //@ allocates Constraints.Index, Constraints.Lower, Constraints.Unique, Constraints.Upper
@@ -1072,11 +1072,11 @@ package sod
 //@ assume [coherent] forallk(t, string, imp(has(db.schemas, t), db.schemas[t].coherent))
 //@ ensures [C08 one-section] ACQ_H == old(ACQ_H) + 1
 //@ ensures [C20 Del.elems] elemsFramedDB(db, T)
-//@ ensures [C01 Del.gone] imp(lastErr == nil && old(has(db.schemas, T)), !has(db.schemas[T].ObjectIndex.uuids, u) && !cached(db, db.schemas[T], u) && !pend(db, db.schemas[T], u) && FSk[opath(db, db.schemas[T], u)] == 0)
-//@ ensures [C01 Del.others] imp(old(has(db.schemas, T)), forallk(w, string, imp(w != u, has(db.schemas[T].ObjectIndex.uuids, w) == old(has(db.schemas[T].ObjectIndex.uuids, w)) && value(db, db.schemas[T], w) == old(value(db, db.schemas[T], w)))))
+//@ ensures [C01 C12 Del.gone] imp(lastErr == nil && old(has(db.schemas, T)), !has(db.schemas[T].ObjectIndex.uuids, u) && !cached(db, db.schemas[T], u) && !pend(db, db.schemas[T], u) && FSk[opath(db, db.schemas[T], u)] == 0)
+//@ ensures [C01 C12 Del.others] imp(old(has(db.schemas, T)), forallk(w, string, imp(w != u, has(db.schemas[T].ObjectIndex.uuids, w) == old(has(db.schemas[T].ObjectIndex.uuids, w)) && value(db, db.schemas[T], w) == old(value(db, db.schemas[T], w)))))
 //@ ensures [C04 Del.committed] imp(lastErr == nil && has(db.schemas, T), committed(db, db.schemas[T]))
-//@ ensures [C01 Del.wf-base] wfDBbase(db)
-//@ ensures [C01 Del.wf] imp(!isStorage(lastErr), collsOK(db))
+//@ ensures [C01 C12 Del.wf-base] wfDBbase(db)
+//@ ensures [C01 C12 Del.wf] imp(!isStorage(lastErr), collsOK(db))
 //@ modifies Ghost.ACQ_H, Ghost.FSk, Ghost.FSc, Async.routineStarted, MapDom[string,*Schema]@db.schemas, MapVal[string,*Schema]@db.schemas, MapCard[string,*Schema]@db.schemas, MapDom[string,Object], MapCard[string,Object], objIndex.ver, MapDom[string,uint64], MapVal[string,uint64], MapCard[string,uint64], MapDom[uint64,string], MapVal[uint64,string], MapCard[uint64,string], fieldIndex.Index, fieldIndex.pos, MapDom[uint64,*indexedField], MapVal[uint64,*indexedField], MapCard[uint64,*indexedField], Elem[*indexedField]
 //@ allocates Async.Enable, Async.Threshold, Async.Timeout, Elem[string], Elem[uint8], MapCard[string,*fieldIndex], MapDom[string,*fieldIndex], MapVal[string,*fieldIndex], Schema.AsyncWrites, Schema.Cache, Schema.Compress, Schema.Extension, Schema.Fields, Schema.ObjectIndex, Schema.coherent, Schema.db, Schema.object, Schema.transformers, fieldIndex.Cast, fieldIndex.Constraints.Index, fieldIndex.Constraints.Lower, fieldIndex.Constraints.Unique, fieldIndex.Constraints.Upper, fieldIndex.Name, fieldIndex.nameSplit, fieldIndex.objectIds, indexedField.ObjectId, indexedField.Value, objIndex.Fields, objIndex.ObjectIds, objIndex.i, objIndex.otype, objIndex.uuids
 //@ allocates Elem[interface{}]
@@ -1291,15 +1291,15 @@ package sod
 //@ requires [C09 lock-free] SL == 0 && HS == 0 && HM == 0
 //@ let T string := stypeOf(dyntype(of))
 //@ ghost w garray[string]int := w
-//@ ensures [C01 iter.fresh] imp(err == nil, it != nil && fresh(it) && it.db == db && it.i == 0 && !it.reverse && it.tdyn == dyntype(of) && has(db.schemas, T) && fresh(arr(it.uuids)))
-//@ ensures [C01 iter.sound] imp(err == nil, forall(k, 0, len(it.uuids), has(db.schemas[T].ObjectIndex.uuids, it.uuids[k])))
-//@ ensures [C01 iter.distinct] imp(err == nil, forall(a, 0, len(it.uuids), forall(b, a+1, len(it.uuids), it.uuids[a] != it.uuids[b])))
-//@ ensures [C01 iter.complete] imp(err == nil, forallk(u, string, imp(has(db.schemas[T].ObjectIndex.uuids, u), 0 <= w[u] && w[u] < len(it.uuids) && it.uuids[w[u]] == u)))
-//@ ensures [C01 iter.wf] wfDBbase(db) && imp(old(collsOK(db)), collsOK(db))
+//@ ensures [C01 C12 iter.fresh] imp(err == nil, it != nil && fresh(it) && it.db == db && it.i == 0 && !it.reverse && it.tdyn == dyntype(of) && has(db.schemas, T) && fresh(arr(it.uuids)))
+//@ ensures [C01 C12 iter.sound] imp(err == nil, forall(k, 0, len(it.uuids), has(db.schemas[T].ObjectIndex.uuids, it.uuids[k])))
+//@ ensures [C01 C12 iter.distinct] imp(err == nil, forall(a, 0, len(it.uuids), forall(b, a+1, len(it.uuids), it.uuids[a] != it.uuids[b])))
+//@ ensures [C01 C12 iter.complete] imp(err == nil, forallk(u, string, imp(has(db.schemas[T].ObjectIndex.uuids, u), 0 <= w[u] && w[u] < len(it.uuids) && it.uuids[w[u]] == u)))
+//@ ensures [C01 C12 iter.wf] wfDBbase(db) && imp(old(collsOK(db)), collsOK(db))
 //@ ensures [C11 iter.coherent] imp(err == nil && !old(has(db.schemas, T)), db.schemas[T].coherent)
 //@ ensures [C20 iter.base] imp(!old(has(db.schemas, T)) && has(db.schemas, T), db.schemas[T].ObjectIndex.base >= old(allocmark()))
 //@ ensures [C17 iter.readonly] FSk == old(FSk) && FSc == old(FSc)
-//@ ensures [C01 iter.others] db.schemas == old(db.schemas) && forallk(t, string, imp(t != T, has(db.schemas, t) == old(has(db.schemas, t)) && db.schemas[t] == old(db.schemas[t]))) && imp(old(has(db.schemas, T)), has(db.schemas, T) && db.schemas[T] == old(db.schemas[T]))
+//@ ensures [C01 C12 iter.others] db.schemas == old(db.schemas) && forallk(t, string, imp(t != T, has(db.schemas, t) == old(has(db.schemas, t)) && db.schemas[t] == old(db.schemas[t]))) && imp(old(has(db.schemas, T)), has(db.schemas, T) && db.schemas[T] == old(db.schemas[T]))
 //@ loop 1 ghost w garray[string]int
 //@ loop 1 update w u := ite(u == uuid, len(uuids) - 1, w[u])
 //@ loop 1 invariant [frame] preserved(Elem[string])
@@ -1318,10 +1318,10 @@ package sod
 //@ requires [C09 lock-free] SL == 0 && HS == 0 && HM == 0
 //@ let T string := stypeOf(dyntype(of))
 //@ ghost w garray[string]int := iterator_w
-//@ ensures [C01 all.sound] imp(err == nil && has(db.schemas, T) && db.schemas[T].coherent, forall(k, 0, len(out), out[k] != nil && has(db.schemas[T].ObjectIndex.uuids, out[k].uuid) && out[k].content == value(db, db.schemas[T], out[k].uuid)))
-//@ ensures [C01 all.distinct] imp(err == nil && has(db.schemas, T) && db.schemas[T].coherent, forall(a, 0, len(out), forall(b, a+1, len(out), touch(out[a]) && touch(out[b]) && out[a].uuid != out[b].uuid)))
-//@ ensures [C01 all.complete] imp(err == nil && has(db.schemas, T) && db.schemas[T].coherent, forallk(u, string, imp(has(db.schemas[T].ObjectIndex.uuids, u), 0 <= w[u] && w[u] < len(out) && out[w[u]].uuid == u)))
-//@ ensures [C01 all.wf] wfDB(db)
+//@ ensures [C01 C12 all.sound] imp(err == nil && has(db.schemas, T) && db.schemas[T].coherent, forall(k, 0, len(out), out[k] != nil && has(db.schemas[T].ObjectIndex.uuids, out[k].uuid) && out[k].content == value(db, db.schemas[T], out[k].uuid)))
+//@ ensures [C01 C12 all.distinct] imp(err == nil && has(db.schemas, T) && db.schemas[T].coherent, forall(a, 0, len(out), forall(b, a+1, len(out), touch(out[a]) && touch(out[b]) && out[a].uuid != out[b].uuid)))
+//@ ensures [C01 C12 all.complete] imp(err == nil && has(db.schemas, T) && db.schemas[T].coherent, forallk(u, string, imp(has(db.schemas[T].ObjectIndex.uuids, u), 0 <= w[u] && w[u] < len(out) && out[w[u]].uuid == u)))
+//@ ensures [C01 C12 all.wf] wfDB(db)
 //@ ensures [C17 all.readonly] FSk == old(FSk) && FSc == old(FSc)
 //@ loop 1 let sch *Schema := db.schemas[T]
 //@ loop 1 let idx *objIndex := db.schemas[T].ObjectIndex
@@ -1380,9 +1380,9 @@ package sod
 //@ let T string := stypeOf(dyntype(of))
 //@ ghost w garray[string]int := all_w
 //@ ensures [C08 one-section] ACQ_H == old(ACQ_H) + 1
-//@ ensures [C01 All.sound] imp(err == nil && has(db.schemas, T) && db.schemas[T].coherent, forall(k, 0, len(out), out[k] != nil && has(db.schemas[T].ObjectIndex.uuids, out[k].uuid) && out[k].content == value(db, db.schemas[T], out[k].uuid)))
-//@ ensures [C01 All.complete] imp(err == nil && has(db.schemas, T) && db.schemas[T].coherent, forallk(u, string, imp(has(db.schemas[T].ObjectIndex.uuids, u), 0 <= w[u] && w[u] < len(out) && out[w[u]].uuid == u)))
-//@ ensures [C01 All.wf] wfDB(db)
+//@ ensures [C01 C12 All.sound] imp(err == nil && has(db.schemas, T) && db.schemas[T].coherent, forall(k, 0, len(out), out[k] != nil && has(db.schemas[T].ObjectIndex.uuids, out[k].uuid) && out[k].content == value(db, db.schemas[T], out[k].uuid)))
+//@ ensures [C01 C12 All.complete] imp(err == nil && has(db.schemas, T) && db.schemas[T].coherent, forallk(u, string, imp(has(db.schemas[T].ObjectIndex.uuids, u), 0 <= w[u] && w[u] < len(out) && out[w[u]].uuid == u)))
+//@ ensures [C01 C12 All.wf] wfDB(db)
 //@ ensures [C17 All.readonly] FSk == old(FSk) && FSc == old(FSc)
 //@ modifies Ghost.ACQ_H, iterator.i, MapDom[string,*Schema]@db.schemas, MapVal[string,*Schema]@db.schemas, MapCard[string,*Schema]@db.schemas, Async.routineStarted, MapDom[string,*objectMap], MapVal[string,*objectMap], MapCard[string,*objectMap], MapDom[string,Object], MapVal[string,Object], MapCard[string,Object]
 //@ allocates Elem[Object], Elem[string], Object.content, Object.stage, Object.uuid, iterator.db, iterator.reverse, iterator.t, iterator.tdyn, iterator.uuids, objectMap.RWMutex, objectMap.m
@@ -1775,9 +1775,9 @@ package sod
 //@ ensures [C02 sa.complete] imp(result.err == nil && sch.coherent, forallk(u, string, imp(has(idx.uuids, u) && opmatch(operator, norm(proj(value(db, sch, u), field)), k) && (constrain == nil || exists(x, 0, len(constrain), constrain[x].ObjectId == idx.uuids[u])), exists(y, 0, len(result.fields), result.fields[y].ObjectId == idx.uuids[u]))))
 //@ ensures [C02 sa.distinct] imp(result.err == nil && sch.coherent, forall(y, 0, len(result.fields), forall(z, y+1, len(result.fields), result.fields[y].ObjectId != result.fields[z].ObjectId)))
 //@ ensures [C20 sa.fresh] (fresh(arr(result.fields)) || cap(result.fields) == 0) && imp(result.err == nil, fresh(arr(result.fields)))
-//@ ensures [C01 sa.wf] wfDB(db) && has(db.schemas, T) && db.schemas[T] == sch && sch.ObjectIndex == idx
+//@ ensures [C01 C12 sa.wf] wfDB(db) && has(db.schemas, T) && db.schemas[T] == sch && sch.ObjectIndex == idx
 //@ ensures [C17 sa.readonly] FSk == old(FSk) && FSc == old(FSc) && asyncwSame(db)
-//@ ensures [C01 sa.others] db.schemas == old(db.schemas) && forallk(t, string, has(db.schemas, t) == old(has(db.schemas, t)) && db.schemas[t] == old(db.schemas[t]))
+//@ ensures [C01 C12 sa.others] db.schemas == old(db.schemas) && forallk(t, string, has(db.schemas, t) == old(has(db.schemas, t)) && db.schemas[t] == old(db.schemas[t]))
 //@ loop 1 invariant [bounds] (-1 <= rangeindex && rangeindex < len(constrain)) || (rangeindex == -1 && len(constrain) == 0)
 //@ loop 1 invariant [frame] preserved(Elem[string])
 //@ loop 1 invariant [uuids] fresh(arr(uuids)) && len(uuids) == rangeindex + 1
@@ -1850,9 +1850,9 @@ package sod
 //@ ensures [C13 search.order] imp(result.err == nil && has(s.ObjectIndex.Fields, field), forall(y, 0, len(result.fields), forall(z, y+1, len(result.fields), !klt(result.fields[y].Value, result.fields[z].Value))))
 //@ ensures [C20 search.fresh] (fresh(arr(result.fields)) || cap(result.fields) == 0) && imp(result.err == nil, fresh(arr(result.fields)))
 //@ ensures [C20 search.separate] imp(has(db.schemas, T), forallk(f, string, imp(has(db.schemas[T].ObjectIndex.Fields, f), cap(result.fields) == 0 || arr(db.schemas[T].ObjectIndex.Fields[f].Index) != arr(result.fields))))
-//@ ensures [C01 search.wf] wfDB(db)
+//@ ensures [C01 C12 search.wf] wfDB(db)
 //@ ensures [C17 search.readonly] FSk == old(FSk) && FSc == old(FSc) && asyncwSame(db)
-//@ ensures [C01 search.others] db.schemas == old(db.schemas) && forallk(t, string, imp(t != T, has(db.schemas, t) == old(has(db.schemas, t)) && db.schemas[t] == old(db.schemas[t]))) && imp(old(has(db.schemas, T)), has(db.schemas, T) && db.schemas[T] == old(db.schemas[T]))
+//@ ensures [C01 C12 search.others] db.schemas == old(db.schemas) && forallk(t, string, imp(t != T, has(db.schemas, t) == old(has(db.schemas, t)) && db.schemas[t] == old(db.schemas[t]))) && imp(old(has(db.schemas, T)), has(db.schemas, T) && db.schemas[T] == old(db.schemas[T]))
 //@ modifies iterator.i, MapDom[string,*Schema]@db.schemas, MapVal[string,*Schema]@db.schemas, MapCard[string,*Schema]@db.schemas, Async.routineStarted, MapDom[string,*objectMap]@db.cache.m, MapVal[string,*objectMap]@db.cache.m, MapCard[string,*objectMap]@db.cache.m, MapDom[string,Object], MapVal[string,Object], MapCard[string,Object]
 //@ allocates Async.Enable, Async.Threshold, Async.Timeout, Elem[*indexedField], Elem[interface{}], Elem[string], MapCard[string,*fieldIndex], MapCard[string,uint64], MapCard[uint64,*indexedField], MapCard[uint64,string], MapDom[string,*fieldIndex], MapDom[string,uint64], MapDom[uint64,*indexedField], MapDom[uint64,string], MapVal[string,*fieldIndex], MapVal[string,uint64], MapVal[uint64,*indexedField], MapVal[uint64,string], Object.content, Object.stage, Object.uuid, Schema.AsyncWrites, Schema.Cache, Schema.Compress, Schema.Extension, Schema.Fields, Schema.ObjectIndex, Schema.coherent, Schema.db, Schema.object, Schema.transformers, Search.db, Search.err, Search.fields, Search.limit, Search.object, Search.reverse, fieldIndex.Cast, fieldIndex.Constraints.Index, fieldIndex.Constraints.Lower, fieldIndex.Constraints.Unique, fieldIndex.Constraints.Upper, fieldIndex.Index, fieldIndex.Name, fieldIndex.nameSplit, fieldIndex.objectIds, fieldIndex.pos, indexedField.ObjectId, indexedField.Value, iterator.db, iterator.reverse, iterator.t, iterator.tdyn, iterator.uuids, objIndex.Fields, objIndex.ObjectIds, objIndex.i, objIndex.otype, objIndex.uuids, objIndex.ver, objectMap.RWMutex, objectMap.m
 
@@ -1874,7 +1874,7 @@ package sod
 //@ ensures [C02 Search.distinct] imp(result.err == nil && db.schemas[T].coherent, forall(y, 0, len(result.fields), forall(z, y+1, len(result.fields), result.fields[y].ObjectId != result.fields[z].ObjectId)))
 //@ ensures [C13 Search.order] imp(result.err == nil && db.schemas[T].coherent && has(db.schemas[T].ObjectIndex.Fields, field), forall(y, 0, len(result.fields), forall(z, y+1, len(result.fields), !klt(norm(proj(value(db, db.schemas[T], db.schemas[T].ObjectIndex.ObjectIds[result.fields[y].ObjectId]), field)), norm(proj(value(db, db.schemas[T], db.schemas[T].ObjectIndex.ObjectIds[result.fields[z].ObjectId]), field))))))
 //@ ensures [C20 Search.fresh] imp(result.err == nil, fresh(arr(result.fields)))
-//@ ensures [C01 Search.wf] wfDB(db)
+//@ ensures [C01 C12 Search.wf] wfDB(db)
 //@ ensures [C17 Search.readonly] FSk == old(FSk) && FSc == old(FSc) && asyncwSame(db)
 //@ modifies Ghost.ACQ_H, iterator.i, MapDom[string,*Schema]@db.schemas, MapVal[string,*Schema]@db.schemas, MapCard[string,*Schema]@db.schemas, Async.routineStarted, MapDom[string,*objectMap]@db.cache.m, MapVal[string,*objectMap]@db.cache.m, MapCard[string,*objectMap]@db.cache.m, MapDom[string,Object], MapVal[string,Object], MapCard[string,Object]
 //@ allocates Async.Enable, Async.Threshold, Async.Timeout, Elem[*indexedField], Elem[interface{}], Elem[string], MapCard[string,*fieldIndex], MapCard[string,uint64], MapCard[uint64,*indexedField], MapCard[uint64,string], MapDom[string,*fieldIndex], MapDom[string,uint64], MapDom[uint64,*indexedField], MapDom[uint64,string], MapVal[string,*fieldIndex], MapVal[string,uint64], MapVal[uint64,*indexedField], MapVal[uint64,string], Object.content, Object.stage, Object.uuid, Schema.AsyncWrites, Schema.Cache, Schema.Compress, Schema.Extension, Schema.Fields, Schema.ObjectIndex, Schema.coherent, Schema.db, Schema.object, Schema.transformers, Search.db, Search.err, Search.fields, Search.limit, Search.object, Search.reverse, fieldIndex.Cast, fieldIndex.Constraints.Index, fieldIndex.Constraints.Lower, fieldIndex.Constraints.Unique, fieldIndex.Constraints.Upper, fieldIndex.Index, fieldIndex.Name, fieldIndex.nameSplit, fieldIndex.objectIds, fieldIndex.pos, indexedField.ObjectId, indexedField.Value, iterator.db, iterator.reverse, iterator.t, iterator.tdyn, iterator.uuids, objIndex.Fields, objIndex.ObjectIds, objIndex.i, objIndex.otype, objIndex.uuids, objIndex.ver, objectMap.RWMutex, objectMap.m
@@ -1897,7 +1897,7 @@ package sod
 //@ ensures [C13 And.order] imp(e0 == nil && result.err == nil && has(db.schemas[T].ObjectIndex.Fields, field), forall(y, 0, len(result.fields), forall(z, y+1, len(result.fields), !klt(result.fields[y].Value, result.fields[z].Value))))
 //@ ensures [C20 And.fresh] imp(e0 == nil && result.err == nil, fresh(arr(result.fields)))
 //@ ensures [C20 And.receiver-untouched] s.fields == f0 && forall(x, 0, len(f0), f0[x] == old(f0[x]))
-//@ ensures [C01 And.wf] imp(e0 == nil, wfDB(db))
+//@ ensures [C01 C12 And.wf] imp(e0 == nil, wfDB(db))
 //@ ensures [C17 And.readonly] FSk == old(FSk) && FSc == old(FSc)
 //@ modifies Ghost.ACQ_H, iterator.i, MapDom[string,*Schema]@s.db.schemas, MapVal[string,*Schema]@s.db.schemas, MapCard[string,*Schema]@s.db.schemas, Async.routineStarted, MapDom[string,*objectMap]@s.db.cache.m, MapVal[string,*objectMap]@s.db.cache.m, MapCard[string,*objectMap]@s.db.cache.m, MapDom[string,Object], MapVal[string,Object], MapCard[string,Object]
 //@ allocates Async.Enable, Async.Threshold, Async.Timeout, Elem[*indexedField], Elem[interface{}], Elem[string], MapCard[string,*fieldIndex], MapCard[string,uint64], MapCard[uint64,*indexedField], MapCard[uint64,string], MapDom[string,*fieldIndex], MapDom[string,uint64], MapDom[uint64,*indexedField], MapDom[uint64,string], MapVal[string,*fieldIndex], MapVal[string,uint64], MapVal[uint64,*indexedField], MapVal[uint64,string], Object.content, Object.stage, Object.uuid, Schema.AsyncWrites, Schema.Cache, Schema.Compress, Schema.Extension, Schema.Fields, Schema.ObjectIndex, Schema.coherent, Schema.db, Schema.object, Schema.transformers, Search.db, Search.err, Search.fields, Search.limit, Search.object, Search.reverse, fieldIndex.Cast, fieldIndex.Constraints.Index, fieldIndex.Constraints.Lower, fieldIndex.Constraints.Unique, fieldIndex.Constraints.Upper, fieldIndex.Index, fieldIndex.Name, fieldIndex.nameSplit, fieldIndex.objectIds, fieldIndex.pos, indexedField.ObjectId, indexedField.Value, iterator.db, iterator.reverse, iterator.t, iterator.tdyn, iterator.uuids, objIndex.Fields, objIndex.ObjectIds, objIndex.i, objIndex.otype, objIndex.uuids, objIndex.ver, objectMap.RWMutex, objectMap.m
@@ -1922,7 +1922,7 @@ package sod
 //@ ensures [C02 Or.distinct] imp(e0 == nil && result.err == nil && db.schemas[T].coherent, distinctIds(result.fields))
 //@ ensures [C20 Or.fresh] imp(e0 == nil && result.err == nil, fresh(arr(result.fields)))
 //@ ensures [C20 Or.receiver-untouched] s.fields == f0 && forall(x, 0, len(f0), f0[x] == old(f0[x]))
-//@ ensures [C01 Or.wf] imp(e0 == nil, wfDB(db))
+//@ ensures [C01 C12 Or.wf] imp(e0 == nil, wfDB(db))
 //@ ensures [C17 Or.readonly] FSk == old(FSk) && FSc == old(FSc)
 //@ loop 1 ghost w garray[uint64]int
 //@ loop 1 update w id := ite(id == new.fields[rangeindex+1].ObjectId, rangeindex+1, w[id])
